@@ -1212,6 +1212,10 @@ class AffInterp:
             raise AnalysisError("%s:%d unsupported operands: %s" % (func.qualname, node.lineno, e))
 
     def binop(self, op, a, b):
+        if isinstance(op, ast.Mult) and ((isinstance(a, list) and isinstance(b, int)) or (isinstance(b, list) and isinstance(a, int))) and not isinstance(a, bool) and not isinstance(b, bool):
+            # [x] * n: n references to the SAME object x (Python's semantics -- the abstract arrays are mutable objects here too,
+            # so an element store through one entry shows through all of them)
+            return a * b
         if isinstance(a, DataVal) or isinstance(b, DataVal):
             return a if isinstance(a, DataVal) else b
         if isinstance(a, TimeVal) or isinstance(b, TimeVal):
@@ -1347,10 +1351,21 @@ class AffInterp:
             if base == "int" and len(args) == 1 and isinstance(args[0], int):
                 return args[0]
             raise AnalysisError("%s:%d unsupported builtin %s" % (func.qualname, ln, base))
+        if base == "reciprocal" and len(args) == 1 and isinstance(args[0], S):
+            if args[0].poly == {1: Fraction(1)}:
+                # the time step AS GIVEN by the caller: np.reciprocal keeps the dtype of its argument -- for a Python int, a numpy
+                # integer or an integer array it is the INTEGER reciprocal (0 for every dt >= 2), where 1/dt and 1./dt are true division
+                e = AnalysisError("%s:%d np.reciprocal of the caller's time step" % (func.qualname, ln))
+                e.violation = ("DTYPE-INT-RECIPROCAL", func.qualname, "`%s` (line %d): np.reciprocal keeps the dtype of its argument -- an integer time step (dt = 2, an integer array of local steps) gives the INTEGER reciprocal 0, the division it replaces (`1/dt`, `x/dt`) is true division for every numeric type" % (unparse(node)[:50], ln),
+                               "int-reciprocal", {"C06", "C01", "C03", "C04", "C05", "C07", "C13", "C14", "C18"})
+                raise e
+            return self.binop(ast.Div(), 1, args[0])
         if base == "roll" and args and isinstance(args[0], tuple) and args[0] and args[0][0] == "jacview":
             return ("rolled", args[0])
         if base in ("any", "all", "count_nonzero", "allclose", "isclose", "array_equal") and args and any(isinstance(a, (AArr, Packed, JacMat, Op, DataVal, tuple)) for a in args):
             return DataCond(unparse(node))
+        if base in ("any", "all") and len(args) == 1 and isinstance(args[0], (bool, DataCond)):
+            return args[0]              # of one (scalar) comparison: that comparison
         if base in ("min", "amin", "max", "amax", "linalg.norm", "norm", "mean", "abs", "absolute") and args and isinstance(args[0], (JacMat, Op, DataVal)):
             return DataVal(unparse(node))           # magnitude of the matrix / of a data-derived scalar
         if base in ("ravel", "concatenate", "hstack") and args and isinstance(args[0], (list, tuple)) and args[0] and all(isinstance(x, AArr) for x in args[0]):
@@ -1387,6 +1402,8 @@ class AffInterp:
                 if rn is not None and rd is not None:
                     return Fraction(rn, rd)
             raise AnalysisError("%s:%d sqrt of a non-square constant" % (func.qualname, ln))
+        if base in ("zeros", "empty") and args and isinstance(args[0], Sym) and args[0].name == "nelem":
+            return AArr({})         # one value per cell (np.empty: whatever it holds is overwritten before it is read, or the reads show)
         if base == "zeros":
             a = args[0]
             if isinstance(a, int):
@@ -1526,6 +1543,11 @@ def _run_step_path(project, cls, nsteps, rhs_owned, policy):
         had = sorted(a for a in ai.selfobj.attrs if a.startswith("_last"))
         # stored increment of a previous step is a fresh symbol L (its own history)
         for a in had:
+            if isinstance(ai.selfobj.attrs[a], (S, int, Fraction, EpsVal)):
+                # a SCALAR kept from the previous step (its time step ...): that step's own value -- another number, which
+                # nothing makes equal to this step's (a nominally constant step recomputed as t[k+1] - t[k] differs by rounding)
+                ai.selfobj.attrs[a] = Opaque("value of %s left by the previous step" % a)
+                continue
             ai.selfobj.attrs[a] = [AArr({("L", q): {0: Fraction(1)}}) for q in range(NEQ)]
         ai.step(f, dt_arg())
         out.append(dict(field=f, K=ai.trace.K[k0:], J=ai.trace.J[j0:], solves=ai.trace.solves[s0:], k0=k0, s0=s0,
